@@ -7,8 +7,9 @@ CFG = dict(
                "if every SIGNED attestation has source < target <= epoch(clock at signing) and every SIGNED block has slot <= clock, the released signatures "
                "contain no double vote, no surrounding/surrounded pair and no two blocks for one slot (invariant proved by induction on the history); "
                "a missing record or account always refuses; a signature is released only after check and record update; restart is the identity on durable state. "
-               "Histories that split BumpSlashingProtection into its separate storage steps are covered when its writes are not stale; the unrestricted statement "
-               "is refuted in Lean and reproduced on the real code (known finding: stale bump write lowers a record). Both hypotheses on signed requests are shown "
+               "Histories may split BumpSlashingProtection into its separate storage steps and interleave them with anything: since /repo commit 23d9c6c97 the bump holds the "
+               "wallet write lock, requests issued meanwhile wait for it (modelled as delayed requests) and only the clock can advance; the theorem needs no freshness hypothesis. "
+               "The pre-fix semantics is kept in Lean with its double-vote witness (C04_old_split_bump_refuted) and as a regression corpus case. Both hypotheses on signed requests are shown "
                "necessary by Lean witnesses that the real signer reproduces (excluded points, reported as observations). The model is tied to the code on every run by "
                "regenerated constants / call-site facts / fingerprints and by running model and the real ethKeyManagerSigner on a real on-disk Badger DB on the same histories.",
     level_note="Trusted: Lean kernel (axioms propext/Classical.choice/Quot.sound only), the go/ast fact extractor, the harness (clock-controlling BeaconNetwork wrapper, "
@@ -18,11 +19,11 @@ CFG = dict(
     technique="Lean 4 proof (inductive invariant over op histories) + regenerated constants/call-site facts/fingerprints + differential run against the real "
               "ethKeyManagerSigner on a real Badger DB (restart = close/reopen) + implementation-side oracle (pairwise slashability of all released signatures per share; released => record persisted, read back after reopen; restart changes no record)",
     lean=["Ssv.Props.C04"],
-    engines=[dict(harness="ekm", driver="m_ekm", n_quick=200, n_thorough=1200, thorough_seeds=3, n_search=600, search_seeds=4, case_delim="reset")],
+    engines=[dict(harness="ekm", driver="m_ekm", n_quick=150, n_thorough=1200, thorough_seeds=3, n_search=600, search_seeds=4, case_delim="reset")],
     rule="seeded histories (18-60 ops, 1-2 shares with fresh BLS keys per history, all on one on-disk Badger DB) over {add, addfail, remove, removefail, bump, "
          "bbegin/bread/bwrite (real BumpSlashingProtection paused at its storage calls), satt, sblk (full/blinded), sattf/sblkf (the request's record write fails: storage error, or the real Badger DB is closed just before the write and then reopened), tick, restart}; every 6th history is a multi-share block (3-5 shares with different records; share 0 is asked 400-700 times for objects its own record refuses while one goroutine per other share hammers the read-only pre-checks; requests under a timeout); sources/targets/slots drawn at, "
          "just below and around the clock and the stored record; 'malformed' histories add targets/slots above the clock, source >= target, far-future values; "
-         "'race' histories advance the clock while a bump is in flight; thorough tier adds concurrent sign requests for one share under a timeout. Every op line is run on "
+         "while a bump is in flight (it holds the wallet lock) the clock advances and ONE lock-taking request is issued in a goroutine: it must block and complete only after the bump has finished (observed via resume; a request that never returns is a harness error); thorough tier adds concurrent sign requests for one share under a timeout. Every op line is run on "
          "the real signer and on the Lean model (outcome + read-back of both records and the account are diffed). A case is distinct+non-trivial per "
          "(op kind, relation of the request to the stored record, well-formedness, outcome, pre-check result) key computed by the harness.",
     trusted_base=["clock mock: BeaconNetwork wrapper overriding EstimatedCurrentSlot/EstimatedCurrentEpoch of networkconfig.TestNetwork's beacon network",
@@ -31,5 +32,5 @@ CFG = dict(
                   "per-account lock of eth2-key-manager (sign = atomic check-then-update) and Badger durability"],
     assumptions=["signed attestations have source < target (ssv-spec AttesterValueCheckF rejects source >= target before any sign request) and target <= current epoch; signed blocks have slot <= current slot (the property's quantifier)",
                  "slot + gap does not overflow uint64",
-                 "AddShare / RemoveShare / reactivation are issued by one goroutine (the event handler); sign requests are concurrent with them"],
+                 "a request that waits for the wallet lock is modelled as executing when the in-flight bump finishes (one waiting request at a time in the differential run)"],
 )
